@@ -305,7 +305,7 @@ def rule_B(ctx):
     for nm in ('toGeoCoords', 'toECEFCoords'):
         g = ctx.prog.func(TRACK + '.' + nm)
         t = unparse(g.node)
-        ctx.check('base = self.base' in t, 'C14.B', g, '%s defaults to the recorded base of the track' % nm, witness={}, node=g.node, key='default:' + nm)
+        ctx.recognise('base = self.base' in t, 'C14.B', g, '%s defaults to the recorded base of the track' % nm, witness={}, node=g.node, key='default:' + nm)
 
 
 RULES = [
